@@ -34,7 +34,7 @@ TB_TYPES = ["list", "tuple", "ndarray", "ndarray-int", "series", "list-int", "no
 
 def shards(tier, seed):
     subs = A.pick_subtypes(tier, seed, n_quick=2)
-    n = 120 if tier == "quick" else 1500
+    n = 120 if tier == "quick" else 5000
     groups = [["point", "multipoint", "line", "ring"], ["multiline", "polygon", "multipolygon"]]
     out = []
     for kinds in groups:
